@@ -2870,6 +2870,14 @@ class LinearOperator(object):
 
         # Wrap negative entries of tensor indices (the index arithmetic of the subclasses assumes non-negative entries)
         if len(index) == ndimension:
+            if settings.debug.on():
+                for i, (idx, size) in enumerate(zip(index, self.shape)):
+                    if torch.is_tensor(idx) and not idx.dtype == torch.bool and idx.numel() and idx.min() < -size:
+                        raise IndexError(
+                            "index element {} is invalid: tensor index out of range for obj of size {}.".format(
+                                i, self.shape
+                            )
+                        )
             index = tuple(
                 torch.where(idx < 0, idx + size, idx) if torch.is_tensor(idx) and not idx.dtype == torch.bool else idx
                 for idx, size in zip(index, self.shape)
